@@ -33,6 +33,11 @@ def rdI (tbl : List Int) (i : Nat) : M Int :=
   | some v => .ok v
   | none => .error (.oobRead i)
 
+/-- the result of signed arithmetic in a `bits`-wide type: outside the type's range the C++ behaviour is undefined
+    and the translation faults -/
+def chkS (bits : Nat) (x : Int) : M Int :=
+  if -(2 : Int) ^ (bits - 1) ≤ x ∧ x < (2 : Int) ^ (bits - 1) then .ok x else .error (.overflow "signed arithmetic")
+
 abbrev rd8 := rd
 abbrev rd16 := rd
 abbrev rd32 := rd
